@@ -173,7 +173,7 @@ func ruleC14NoAnnotationAliasing(c *Ctx) {
 						}
 					}
 				}
-				construct := fmt.Sprintf("%s:store:%s", core.FuncName(fn), core.StructField(fa.X.Type(), fa.Field).Name())
+				construct := fmt.Sprintf("%s:store:%s", core.FuncName(fn), core.CanonFieldOf(fa.X.Type(), fa.Field))
 				if bad != "" {
 					c.R.Bad(rule, construct, c.pos(x), fmt.Sprintf("%s stores into an annotations field a map that belongs to an argument (%s) instead of a copy", core.FuncName(fn), bad))
 				} else {
